@@ -145,9 +145,41 @@ class Walker:
                         env[t.id] = v
                     elif isinstance(t, ast.Subscript) and isinstance(t.value, ast.Name) and isinstance(env.get(t.value.id), tuple) \
                             and env[t.value.id][0] == 'buf':
+                        buf = env[t.value.id][1]
+                        if isinstance(t.slice, ast.Slice) and t.slice.step is None and 'slices' in buf:
+                            # w[a:b] = values : pieces laid side by side; once they tile [0, length) the buffer is their concatenation
+                            def bnd(x_, default):
+                                if x_ is None:
+                                    return default
+                                b_ = self.ev(x_, env)
+                                if isinstance(b_, D) and b_.scalar and b_.centre is not None:
+                                    return b_.centre
+                                raise AnalysisError('window analysis: slice bound %s' % normalise(x_))
+                            lo_, hi_ = bnd(t.slice.lower, sp.Integer(0)), bnd(t.slice.upper, buf['length'])
+                            if isinstance(v, D) and v.scalar:
+                                piece = D(SYM, v.centre, sp.simplify(hi_ - lo_))       # a constant run
+                            elif isinstance(v, D):
+                                piece = v
+                            else:
+                                raise AnalysisError('window analysis: unsupported slice store %s' % normalise(t))
+                            sl_ = sorted(buf['slices'] + [(lo_, hi_, piece)], key=lambda z: len(buf['slices']) if z[0] is lo_ else 0)
+                            sl_ = buf['slices'] + [(lo_, hi_, piece)]
+                            # tiling test: some order of the pieces starts at 0, ends at length, each starting where the last ended
+                            order, cur_, left = [], sp.Integer(0), list(sl_)
+                            while left:
+                                nxt = [z for z in left if iszero(sp.simplify(z[0] - cur_))]
+                                if not nxt:
+                                    break
+                                order.append(nxt[0])
+                                cur_ = nxt[0][1]
+                                left.remove(nxt[0])
+                            if not left and iszero(sp.simplify(cur_ - buf['length'])):
+                                env[t.value.id] = self.concat([z[2] for z in order], t)
+                            else:
+                                env[t.value.id] = ('buf', {'length': buf['length'], 'parts': {}, 'slices': sl_})
+                            continue
                         # w[mask] = values : a buffer assembled from complementary, reflection-symmetric selections
                         m_ = self.ev(t.slice, env)
-                        buf = env[t.value.id][1]
                         if not (isinstance(m_, tuple) and m_[0] == 'mask' and m_[1].get('side') in ('mid', 'notmid') and isinstance(v, D)):
                             raise AnalysisError('window analysis: unsupported masked store %s' % normalise(t))
                         parts = dict(buf['parts'])
@@ -289,6 +321,8 @@ class Walker:
                 return scalar(base[1].setdefault('count', fresh('L')))
             if e.attr == 'size' and isinstance(base, D) and base.length is not None:
                 return scalar(base.length)
+            if e.attr == 'dtype' and isinstance(base, D):
+                return ('const', 'dtype')
             raise AnalysisError('window analysis: attribute %s' % normalise(e))
         if isinstance(e, ast.UnaryOp):
             v = self.ev(e.operand, env)
@@ -529,6 +563,8 @@ class Walker:
             return D(REFL, (a.centre + b.centre) / 2, N, c=sp.simplify(a.centre + b.centre))
         if name in ('empty_like', 'zeros_like') and args and isinstance(args[0], D) and args[0].length is not None:
             return ('buf', {'length': args[0].length, 'parts': {}})
+        if name == 'empty' and args and isinstance(args[0], D) and args[0].scalar and args[0].centre is not None:
+            return ('buf', {'length': args[0].centre, 'parts': {}, 'slices': []})
         if name == 'ones':
             ln = args[0].centre if isinstance(args[0], D) else None
             return D(SYM, sp.Integer(1), ln)
